@@ -5,8 +5,10 @@
 # the demonstration fails with it and passes without it. Then runs the named checks against the patched copy.
 set -u
 ID="$1"; shift
-SRC=/tmp/wt-$ID/_seed
+WT=/tmp/wt-$ID
 DST=/verif/seeded/$ID
+if [ "${ROUND:-1}" = "2" ]; then WT=/tmp/w2-$ID; DST=/verif/seeded/$ID-r2; fi
+SRC=$WT/_seed
 export GOFLAGS=-mod=mod GOPROXY=off GOSUMDB=off GOTOOLCHAIN=local
 mkdir -p "$DST"
 cp "$SRC"/* "$DST"/ 2>/dev/null
@@ -17,7 +19,7 @@ cd "$W" && git init -q && git add -A && git commit -qm base
 DEMO=$(ls "$DST"/*_test.go | head -1)
 DEMOPKG=$(python3 -c "import json;m=json.load(open('$DST/meta.json'));print(m.get('demo_cmd',''))")
 # place the demo where the agent had it
-REL=$(cd /tmp/wt-$ID && git status --porcelain | grep '_test.go' | awk '{print $2}' | head -1)
+REL=$(cd $WT && git status --porcelain | grep '_test.go' | awk '{print $2}' | head -1)
 [ -z "$REL" ] && REL=$(basename "$DEMO")
 cp "$DEMO" "$W/$REL"
 PKG="./$(dirname "$REL")/"
